@@ -362,7 +362,7 @@ def gen_pair(rng, k1, k2):
             pat = rng.choice([f"{pool.d}/*", "*.txt", "*", f"{pool.d}/**", f"{pool.d}/*.txt"])
             from stepup.core.nglob import convert_nglob_to_regex
             rx = re.compile(convert_nglob_to_regex(pat, {}))
-            ms = [m for m in {p, q} if rx.fullmatch(m) and rng.random() < 0.5]
+            ms = [m for m in sorted({p, q}) if rx.fullmatch(m) and rng.random() < 0.5]
             return ("glob", creator, pat, sorted(ms))
         role = kind.split("-")[1]
         inps, outs, vols = [], [], []
